@@ -335,6 +335,19 @@ def stepLine (st : DState) (line : String) : DState × String :=
   | ["premain"] => res st premainStr
   -- round 3b: igris::dlist::is_correct() on a hand-corrupted 4-node ring (head 0, elements 1 2 3):
   -- mode 0 untouched, 1 lasso (3->next = 2), 2 prev := copy of next, 3 one wrong back link (2->prev = 0), 4 only the head's back link wrong (0->prev = 1)
+  -- round 3b: two list heads in ONE ring spliced into each other (theorem `splice_same_ring`): list L (head 0) holds
+  -- 1 2 3, the head of list O (node 4) is moved in front of node m (m = 0: in front of L's head), then
+  -- L.unlink_and_move_all_nodes_from_other(O)
+  | ["xsplice_same", m] => match nat? m with
+    | some m =>
+      let h0 : Heap := ⟨fun x => x, fun x => x⟩
+      let h1 := nodeMovePrevThan (nodeMovePrevThan (nodeMovePrevThan h0 1 0) 2 0) 3 0
+      let h2 := nodeMovePrevThan h1 4 m
+      let h3 := listSplice h2 0 4
+      let c := if cppIsCorrectStrict h3 FUEL 0 && cppIsCorrectStrict h3 FUEL 4 then "1" else "0"
+      let e := if h3.next 4 = 4 then "1" else "0"
+      res st s!"{ids (dlistToList h3 FUEL 0)} {ids (dlistToListRev h3 FUEL 0)} {e} {circularSize h3 FUEL 0 - 1} {c}"
+    | none => bad
   | ["xcorrect_poke", m] => match nat? m with
     | some m =>
       let nx : Nat → Nat := fun x => if x < 4 then (if m == 1 && x == 3 then 2 else (x + 1) % 4) else x
